@@ -24,8 +24,9 @@ Import ListNotations.
 
 (* For every re-entrant program (listeners running any command, including dispatching their own
    event again, to any depth), every condition table and every fuel: after ANY history, a listener
-   added through CounterRemover with count n in the covered range rng (below: INT_MIN < n <= INT_MAX
-   for the code as it is; INT_MIN <= n for the specification),
+   added through CounterRemover with count n in the covered range rng (below: full_range, i.e. EVERY
+   count an int can hold, INT_MIN <= n <= INT_MAX, for the code as generated from the headers, for the
+   specification and for the hand-written guarded wrapper; in_range, INT_MIN < n, for the legacy wrapper),
    (1) has been called exactly once per trigger, with that trigger's key and argument, in order;
    (2) has seen at most max(n,1) triggers;
    (3) is attached iff it has seen fewer than max(n,1) triggers — unless someone removed its handle
@@ -79,22 +80,22 @@ Definition helper_irrelevant (lf : leafs) : Prop :=
     a_run lf behav cverdict fuel st prog
     = a_run lf (fun c n => strip_drops (behav c n)) cverdict fuel st (strip_drops prog).
 
-(* ---- the code, as generated from the headers ---- *)
+(* ---- the code, as generated from the headers: every trigger count, zero, negative and INT_MIN included ---- *)
 
-Theorem C16_counter_remover_exact : forall islist, counter_exact in_range (gen_leafs islist).
-Proof. exact (fun islist => counter_remover_exact _ _ (gen_leafs_ok islist)). Qed.
+Theorem C16_counter_remover_exact : forall islist, counter_exact full_range (gen_leafs islist).
+Proof. exact (fun islist => counter_remover_exact _ _ (gen_leafs_ok_full islist)). Qed.
 Print Assumptions C16_counter_remover_exact.
 
 Theorem C16_conditional_remover_exact : forall islist, conditional_exact (gen_leafs islist).
-Proof. exact (fun islist => conditional_remover_exact _ _ (gen_leafs_ok islist)). Qed.
+Proof. exact (fun islist => conditional_remover_exact _ _ (gen_leafs_ok_full islist)). Qed.
 Print Assumptions C16_conditional_remover_exact.
 
-Theorem C16_attached_wrapper_is_triggered : forall islist, attached_is_triggered in_range (gen_leafs islist).
-Proof. exact (fun islist => attached_wrapper_is_triggered _ _ (gen_leafs_ok islist)). Qed.
+Theorem C16_attached_wrapper_is_triggered : forall islist, attached_is_triggered full_range (gen_leafs islist).
+Proof. exact (fun islist => attached_wrapper_is_triggered _ _ (gen_leafs_ok_full islist)). Qed.
 Print Assumptions C16_attached_wrapper_is_triggered.
 
 Theorem C16_helper_lifetime_irrelevant : forall islist, helper_irrelevant (gen_leafs islist).
-Proof. exact (fun islist => helper_lifetime_irrelevant _ _ (gen_leafs_ok islist)). Qed.
+Proof. exact (fun islist => helper_lifetime_irrelevant _ _ (gen_leafs_ok_full islist)). Qed.
 Print Assumptions C16_helper_lifetime_irrelevant.
 
 (* ---- the specification used as oracle satisfies the same statements, for EVERY count an int can hold ---- *)
@@ -110,7 +111,7 @@ Print Assumptions C16_specification_meets_the_statements.
 
 (* ---- a wrapper that does not decrement at or below 1 (`if(data->triggerCount <= 1 || --data->triggerCount <= 0)`,
         guarded_leafs, written out by hand) meets the statements for every count, INT_MIN included:
-        the repair proposed for observation P9 ---- *)
+        the repair of observation P9 (commit bebac6a), independent of tie A ---- *)
 
 Theorem C16_guarded_counter_covers_every_count :
   counter_exact full_range guarded_leafs /\ attached_is_triggered full_range guarded_leafs.
@@ -119,7 +120,7 @@ Proof.
 Qed.
 Print Assumptions C16_guarded_counter_covers_every_count.
 
-(* n = INT_MIN is excluded above for a reason.  legacy_leafs is the counter wrapper of the tree this
+(* Regression witness of the repaired defect (observation P9).  legacy_leafs is the counter wrapper of the tree this
    development started from, written out by hand: `if(--data->triggerCount <= 0)` on a 32-bit int,
    removal before the call.  Its first decrement at INT_MIN overflows (undefined behaviour in C++);
    under wrap-around semantics the listener, promised max(INT_MIN,1) = 1 call, is still attached after
@@ -183,9 +184,22 @@ Example C16_helper_hypotheses_satisfiable :
     /\ strip_drops ex_main <> ex_main /\ strip_drops (ex_behav 1 1) <> ex_behav 1 1.
 Proof. eexists. split; [vm_compute; reflexivity|]. split; vm_compute; discriminate. Qed.
 
-(* The tree as it is: the GENERATED test, given INT_MIN, wraps to INT_MAX and does not remove — the
-   witness above is about the code as tie A reads it today.  After a repair of the header this
-   Example (only) no longer holds and is to be replaced by its opposite. *)
+(* The tree as it is (after the repair): the GENERATED test, given INT_MIN, removes the listener and
+   leaves the counter alone — no decrement, hence no overflow; the same at 1, 0 and -3.  Above 1 it
+   decrements.  With the legacy test this Example fails ((INT_MAX, false) at INT_MIN). *)
 Example C16_generated_counter_at_int_min :
-  forall islist, GenAutoRemove.counter_step islist int_dec int_min = (int_max, false).
-Proof. intros []; vm_compute; reflexivity. Qed.
+  forall islist,
+    GenAutoRemove.counter_step islist int_dec int_min = (int_min, true)
+    /\ counter_overflowed true int_min (fst (GenAutoRemove.counter_step islist int_dec int_min)) = false
+    /\ GenAutoRemove.counter_step islist int_dec 1%Z = (1%Z, true)
+    /\ GenAutoRemove.counter_step islist int_dec 0%Z = (0%Z, true)
+    /\ GenAutoRemove.counter_step islist int_dec (-3)%Z = ((-3)%Z, true)
+    /\ GenAutoRemove.counter_step islist int_dec 2%Z = (1%Z, false).
+Proof. intros []; vm_compute; repeat split; reflexivity. Qed.
+
+(* and the whole INT_MIN program on the generated wrapper: one call, detached, nothing overflowed *)
+Example C16_generated_int_min_program :
+  forall islist, exists st,
+    a_run (gen_leafs islist) (fun _ _ => []) (fun _ _ => false) 2 a_init int_min_prog = Some st
+    /\ attached st 0 = false /\ length (calls_of 0 (atrace st)) = 1 /\ ovfs st = [].
+Proof. intros []; eexists; (split; [vm_compute; reflexivity|]); vm_compute; repeat split; reflexivity. Qed.
